@@ -215,6 +215,15 @@ impl ProbeCore {
                 (k, Some(k))
             }
             Hint::Inexact => (0, Some(1_000_000)),
+            Hint::Upper => {
+                let k = self
+                    .script
+                    .iter()
+                    .take_while(|e| matches!(e, Entry::S(_)))
+                    .count()
+                    .saturating_sub(self.produced);
+                (0, Some(k))
+            }
             Hint::Unbounded => (0, None),
             Hint::Fixed(k) => {
                 let k = k.saturating_sub(self.produced);
